@@ -95,6 +95,8 @@ fn simple_server_prog(t: &Tape) -> ServerStreamProg {
         respond_delay: *t.pick(Lane::Work, &[0u32, 1, 5]),
         refuse: None,
         drop_without_response: false,
+        late_informational: false,
+        late_push: false,
     }
 }
 
@@ -1544,5 +1546,6 @@ pub fn run_t2(profile: &T2Profile, tape: Tape, want_sample: bool) -> RunOut {
         sample,
         tape: tape.recorded(),
         trace_tail,
+        recheck_tape: None,
     }
 }
